@@ -87,7 +87,10 @@ def build_coq(log=None) -> float:
         fcntl.flock(lk, fcntl.LOCK_EX)
         import gen_consts
 
-        gen_consts.regenerate()
+        try:
+            gen_consts.regenerate()
+        except gen_consts.Unrecognised as e:
+            raise BuildError(f"constants translator (fail-closed) does not recognise the current source: {e}")
         proj = COQ / "_CoqProject"
         mk = COQ / "Makefile"
         if not mk.exists() or mk.stat().st_mtime < proj.stat().st_mtime:
